@@ -557,6 +557,43 @@ pub fn generate(workload: Workload, subject: SubjectKind, seed: u64) -> (Config,
                 ..Weights::default()
             };
             n_ops = r.range(60, 400) as usize;
+            if matches!(class, Class::Collection | Class::Merge) && r.chance(1, 3) {
+                // everybody permanently busy except one victim at a chosen place in the line
+                let busy = r.pick(&[30usize, 60, 61, 61, 62, 122, 123, 123, 185]);
+                let victim_at = match r.below(3) {
+                    0 => busy,
+                    1 => r.below(busy as u64 + 1) as usize,
+                    _ => busy.min(61),
+                };
+                let busy_beh = Beh { selfwake: 255, items: 255, store: r.below(2) as u8, ..Beh::default() };
+                let victim = Beh { items: 0, ..Beh::default() };
+                let mut all: Vec<Beh> = vec![busy_beh; busy];
+                all.insert(victim_at, victim);
+                trace.clear();
+                cfg.initial.clear();
+                if subject.bounded() {
+                    cfg.cap = all.len() + r.below(2) as usize;
+                }
+                if subject == SubjectKind::MB {
+                    cfg.ctor = Ctor::Collect;
+                    cfg.initial = all;
+                } else {
+                    cfg.ctor = Ctor::New;
+                    for b in all {
+                        trace.push(Op::Push { beh: b, how: PushHow::Back });
+                    }
+                }
+                if subject.bounded() && cfg.ctor == Ctor::Collect {
+                    cfg.cap = cfg.initial.len();
+                }
+                // wake the victim now and then; the executor keeps polling as long as it is woken
+                for _ in 0..r.range(1, 3) {
+                    trace.push(Op::Drive { max: r.range(150, 700) as u16 });
+                    trace.push(Op::Wake { sel: victim_at as u16, how: WakeHow::ByRef, times: 1 });
+                }
+                trace.push(Op::Drive { max: r.range(150, 700) as u16 });
+                n_ops = 0;
+            }
         }
         Workload::Oscillate => {
             m.p_ready = 70;
@@ -736,6 +773,24 @@ pub fn generate(workload: Workload, subject: SubjectKind, seed: u64) -> (Config,
                 trace.push(Op::PollMany { max: (drain + 2) as u16, fresh: false });
             }
             let resident = (k - drain) as u16;
+            if r.chance(1, 3) {
+                // work-queue flavour: travellers are ready when pushed, one poll per push; some
+                // residents are woken at the start and must get their turn while this goes on
+                let ready = Beh { ready: true, ..Beh::default() };
+                for i in 0..r.range(1, 3) {
+                    trace.push(Op::Wake { sel: i as u16 * 7, how: WakeHow::ByRef, times: 1 });
+                }
+                let cycles = r.range(60, 500);
+                for c in 0..cycles {
+                    trace.push(Op::Push { beh: ready, how: PushHow::Back });
+                    trace.push(Op::Poll { fresh: false });
+                    if c % 97 == 96 {
+                        trace.push(Op::Wake { sel: (c / 7) as u16, how: WakeHow::ByRef, times: 1 });
+                    }
+                }
+                trace.push(Op::Quiesce);
+                return (cfg, trace);
+            }
             // the first traveller
             trace.push(Op::Push { beh: pending, how: PushHow::Back });
             let cycles = r.range(20, 300);
